@@ -60,7 +60,7 @@ type cliWorld struct {
 }
 
 var clientDelaySites = []string{"client.leadingTimeConv.set", "client.leadingTimeConv.got", "client.processor.afterPull",
-	"client.primary.beforeStartStreaming", "client.downloader.beforePush"}
+	"client.primary.beforeStartStreaming", "client.downloader.beforePush", "client.processor.beforePush"}
 
 func newCliWorld(r *Run, org origin, uri string, fate func(nr *netReq) *netFate) *cliWorld {
 	w := &cliWorld{r: r, limit: 10 * time.Minute, afterWait: 30 * time.Second}
@@ -71,6 +71,15 @@ func newCliWorld(r *Run, org origin, uri string, fate func(nr *netReq) *netFate)
 			r.SetDelay(site, time.Duration(r.T.Intn(4)))
 		}
 		r.Probe("client-goroutine-order-perturbed")
+		// C12/C13: one site additionally holds its goroutine long enough for Close, a fault or a delivery to land
+		// while the hand-over is half done
+		if (r.Prop == "C12" || r.Prop == "C13") && r.T.Chance(1, 2) {
+			site := clientDelaySites[r.T.Intn(len(clientDelaySites))]
+			hold := time.Duration(Pick(r.T, 200, 1000, 5000, 20000)) * time.Microsecond
+			r.SetDelay(site, hold)
+			r.Log("client", "0s (harness) goroutines passing %s are held %v", site, hold)
+			r.Probe("client-goroutine-held")
+		}
 	}
 	tr := newSimTransport(r)
 	w.net = &cliNet{r: r, tr: tr, org: org, fateOf: fate}
@@ -236,6 +245,9 @@ var muxerFrame = regexp.MustCompile(`gohlslib/v2\.\(\*[mM]uxer`)
 // its routine pool count too).
 func clientGoroutines() []string {
 	syncWait()
+	if r := currentRun.Load(); r != nil {
+		r.SettleHolds() // a goroutine held at an instrumented point is on its way out, not leaked
+	}
 	buf := make([]byte, 1<<20)
 	n := runtime.Stack(buf, true)
 	var out []string
